@@ -55,6 +55,7 @@ struct Shared {
     /// operation id -> acknowledgement
     acks: Mutex<HashMap<i64, Arc<CommandAcknowledgement>>>,
     wakers: Mutex<HashMap<String, Arc<CountingWaker>>>,
+    stop: std::sync::atomic::AtomicBool,
 }
 
 pub fn clamp(value: i64) -> i64 {
@@ -66,8 +67,8 @@ fn ttl_of(op: &Op) -> Option<Duration> {
 }
 
 fn weight_of(op: &Op) -> i64 {
-    // weights in the large zone stand for i64::MAX - (2*BIG - w)
-    if op.w > BIG { i64::MAX - (2 * BIG - op.w) } else { op.w }
+    // weights in the large zone (BIG + 1 + k) stand for i64::MAX - k
+    if op.w > BIG { i64::MAX - (op.w - BIG - 1) } else { op.w }
 }
 
 fn ack_result(shared: &Shared, op: &Op, result: CommandSendResult, ret: &mut RetRec) {
@@ -180,6 +181,7 @@ fn exec(shared: &Shared, role: &str, op: &Op) -> RetRec {
             loop {
                 verif::point("C_Poll", op.r#ref);
                 if poll_once(shared, role, op, &mut ret) { break; }
+                if shared.stop.load(Ordering::SeqCst) { break; }
             }
         }
         "shutdown" => { cache.shutdown(); }
@@ -279,7 +281,7 @@ impl Ctl {
         let (site, arg) = match self.site_of(role) { Some(pair) => pair, None => return false };
         match site.as_str() {
             "C_Idle" => cursor.get(role).copied().unwrap_or(0) < programs.get(role).map(|program| program.len()).unwrap_or(0),
-            "C_Send" => (state.qlen as usize) < self.cfg.qsize,
+            "C_Send" => (state.qlen as usize) < self.cfg.qsize || matches!(self.sched.status("worker"), Some(Status::Exited { .. })),
             "W_Recv" | "W_Drain" => state.qlen > 0,
             "R_Recv" => state.chlen > 0,
             "C_ShutPolicy" => (state.chlen as usize) < ACCESS_CHANNEL_CAPACITY,
@@ -352,6 +354,7 @@ impl<'a> Driver<'a> {
             rets: Mutex::new(HashMap::new()),
             acks: Mutex::new(HashMap::new()),
             wakers: Mutex::new(HashMap::new()),
+            stop: std::sync::atomic::AtomicBool::new(false),
         });
 
         // caller threads
@@ -415,6 +418,7 @@ impl<'a> Driver<'a> {
         let then_drain = match &scenario.schedule { Schedule::List { then_drain, .. } => *then_drain, _ => true };
         let mut list_pos = 0usize;
         let mut pending_polls: HashMap<String, u32> = HashMap::new();
+        let mut idle_steps = 0usize;
 
         while hang.is_none() && (step_no as usize) < max_steps {
             // ---- choose
@@ -509,6 +513,8 @@ impl<'a> Driver<'a> {
             }
             let (actor, advance) = choice.unwrap();
             if actor != "env" { last_actor = Some(actor.clone()); }
+            if actor == "env" || actor == "sweeper" { idle_steps += 1; } else { idle_steps = 0; }
+            if idle_steps > 400 && list.is_none() { stuck = true; break; }
 
             // ---- execute
             step_no += 1;
@@ -596,6 +602,7 @@ impl<'a> Driver<'a> {
         }
         // teardown: let everything run freely, stop callers, shut the cache down
         shared.next_op.lock().unwrap().clear();
+        shared.stop.store(true, Ordering::SeqCst);
         sched.free();
         cache.shutdown();
         for join in joins { let _ = join.join(); }
